@@ -94,6 +94,9 @@ func canonicalKey(s string) string {
 	return string(b)
 }
 
+// IsTchar reports whether c is a token character (RFC 9110).
+func IsTchar(c byte) bool { return isTchar(c) }
+
 func isTchar(c byte) bool {
 	switch {
 	case c >= 'a' && c <= 'z', c >= 'A' && c <= 'Z', c >= '0' && c <= '9':
